@@ -31,6 +31,23 @@ pub fn corpus() -> Vec<(&'static str, IncCfg, Vec<Op>)> {
         Op::OpenFlow { sender: 1, funds: vec![(0, 7000)], allow: vec![], start: None, end: None, asset: 0, amount: 2000, label: None },
         Op::CloseFlow { sender: 1, ident: Ident::Id(1) },
     ]));
+    // a flow claimed to the last unit (one staker holds 100 % in every epoch and claims after the flow's last epoch), then closed by its
+    // creator: for a native reward the zero refund is refused by the bank (the close fails, nothing changes); for a cw20 reward the close
+    // succeeds - and then the flow is gone
+    for (lp, asset) in [(10i64, 1i64), (3, 11), (10, 0)] {
+        let c = cfg_base(lp, if asset == 0 { 1 } else { 0 });
+        // the staker's weight counts from the epoch after the position is opened: position first, flow one epoch later
+        let mut ops: Vec<Op> = vec![
+            if lp == 10 { Op::OpenPosition { sender: 2, funds: vec![], allow: vec![(10, 5_000)], amount: 5_000, dur: 86_400, receiver: None } }
+            else { Op::OpenPosition { sender: 2, funds: vec![(3, 5_000)], allow: vec![], amount: 5_000, dur: 86_400, receiver: None } },
+            Op::NewEpoch, Op::Snapshot,
+            honest(&c, 1, asset, 900_000, None, Some(6)),
+        ];
+        for _ in 0..6 { ops.push(Op::NewEpoch); ops.push(Op::Snapshot); }
+        ops.extend(vec![Op::Claim { sender: 2 }, Op::Claim { sender: 2 }, Op::CloseFlow { sender: 1, ident: Ident::Id(1) }, Op::CloseFlow { sender: 1, ident: Ident::Id(1) },
+                        honest(&c, 3, asset, 50_000, None, None)]);
+        v.push(("fully_claimed_flow_closed", c.clone(), ops));
+    }
     // a single claim spanning more than EPOCH_CLAIM_CAP (100) epochs: the capped claim must still book what it pays, the rest is
     // claimed by the next call, and closing refunds exactly funded - claimed
     let c = cfg_base(10, 0);
@@ -107,6 +124,7 @@ pub fn run(args: &Args) {
     let focus = focus_c12();
     let mut none = |_: &mut Mon, _: &IncWorld, _: &Snap, _: &Op, _: bool, _: &Snap| {};
     if let Some(path) = &args.replay {
+        if replay_kind(path) == "migration_probe" { replay_probe(&mut out, &mut |o| migration_probe(o)); }
         let j: serde_json::Value = serde_json::from_str(&std::fs::read_to_string(path).expect("replay file")).expect("json");
         let fi = j.get("failing_input").cloned().unwrap_or(j);
         let cfg: IncCfg = serde_json::from_value(fi["cfg"].clone()).expect("cfg");
@@ -118,6 +136,7 @@ pub fn run(args: &Args) {
         out.finish();
         std::process::exit(if bad { 1 } else { 0 });
     }
+    migration_probe(&mut out);
     let mut idx = 0u64;
     for (tag, cfg, ops) in corpus() {
         if let Some(r) = run_case(&mut out, &mut rng, &cfg, ops, 0, &focus, "C12", tag, &mut none) {
@@ -141,4 +160,21 @@ pub fn run(args: &Args) {
         }
     }
     out.finish();
+}
+
+/// two unlabelled, never expanded flows (a native and a cw20 reward), stakers, epochs, claims (so that claimed amounts and emitted
+/// tokens are non-zero); then the incentive's `migrate` from the 1.0.5 flow layout on a copy of its storage (migr.rs)
+fn migration_probe(out: &mut Out) {
+    for lp in [10i64, 3] {
+        let c = cfg_base(lp, 0);
+        let Ok(mut w) = IncWorld::deploy(&c) else { out.count("migration:incentive:deploy_failed"); continue };
+        let flow = |asset: i64, amount: u128, end: u64, sender: i64| { let (funds, allow) = Gen::flow_recipe(&c, asset, amount); Op::OpenFlow { sender, funds, allow, start: None, end: Some(end), asset, amount, label: None } };
+        let pos = |sender: i64, amount: u128| if lp == 10 { Op::OpenPosition { sender, funds: vec![], allow: vec![(10, amount)], amount, dur: 86_400, receiver: None } }
+                                           else { Op::OpenPosition { sender, funds: vec![(3, amount)], allow: vec![], amount, dur: 86_400, receiver: None } };
+        let mut ops = vec![pos(2, 5_000), pos(3, 2_500), Op::NewEpoch, Op::Snapshot, flow(1, 3_000_000, 20, 1), flow(11, 700_000, 15, 4)];
+        for _ in 0..4 { ops.push(Op::NewEpoch); ops.push(Op::Snapshot); }
+        ops.extend(vec![Op::Claim { sender: 2 }, Op::NewEpoch, Op::Snapshot, Op::Claim { sender: 3 }]);
+        for o in &ops { let _ = w.exec(o); }
+        crate::migr::probe_incentive(out, &w.app.dump_wasm_raw(&w.incentive));
+    }
 }
